@@ -996,6 +996,11 @@ class _Tree(_ArithmeticMixin, _Base):
         return key in (self._findbucket(tree_key) or ())
 
     def has_key(self, key):
+        try:
+            key = self._to_key(key)
+        except TypeError:
+            # Can't convert the key, so can't possibly be in the tree
+            return False
         index = self._search(key)
         if index < 0:
             return False
@@ -1422,15 +1427,25 @@ class Tree(_MutableMappingMixin, _Tree):
     __slots__ = ()
 
     def get(self, key, default=None):
-        bucket = self._findbucket(key)
+        try:
+            tree_key = self._to_key(key)
+        except TypeError:
+            # Can't convert, cannot possibly be present.
+            return default
+        bucket = self._findbucket(tree_key)
         if bucket:
-            return bucket.get(key, default)
+            return bucket.get(tree_key, default)
         return default
 
     def __getitem__(self, key):
-        bucket = self._findbucket(key)
+        try:
+            tree_key = self._to_key(key)
+        except TypeError:
+            # Can't convert, so cannot possibly be present.
+            raise KeyError(key)
+        bucket = self._findbucket(tree_key)
         if bucket:
-            return bucket[key]
+            return bucket[tree_key]
         raise KeyError(key)
 
     def values(self, min=_marker, max=_marker,
